@@ -76,7 +76,7 @@ def make_item(w, rng, envs):
         it.info = dict(kind="hybrid", family=[(s["name"], spec_sig(s)) for s in specs])
     else:
         depth = rng.choice([1, 2, 2, 3])
-        tg = TypeGen(rng, max_depth=depth)
+        tg = TypeGen(rng, max_depth=depth, anon=0.0)  # automatically named array classes are not importable: outside the property
         it.t = tg.root(allow=("st",) if r < 0.68 else ("ar",))
         it.kind = "struct" if it.t["k"] == "st" else "array"
         cache = {}
